@@ -363,7 +363,7 @@ func checkC03(r *Report) {
 
 	// SEP-BYTES
 	nSB := sepBytesRule(r, p, "C03/SEP-BYTES")
-	r.floor("C03/SEP-BYTES", "separator bytes accepted by pep440's allowSeparator", nSB, 3)
+	r.floor("C03/SEP-BYTES", "bytes interpreted through System.typeOf (pep440 separators, Maven printable bytes)", nSB, 90)
 
 	// EXHAUSTIVE: token kinds used as values vs parser cases
 	unary := map[string]bool{}
